@@ -480,6 +480,24 @@ impl TryFrom<&mut Peekable<Lexer>> for ParserNode {
                         }
                         Type::JumpLinkR(inst) => {
                             let reg1 = lex.get_reg()?;
+                            // `jalr rs` is complete at the end of its line (or of
+                            // the file): what follows is not part of it
+                            let at_end = match lex.peek_any() {
+                                Ok(token) => {
+                                    token == TokenType::Newline
+                                        || matches!(token.token_type(), TokenType::Comment(_))
+                                }
+                                Err(_) => true,
+                            };
+                            if at_end {
+                                return Ok(ParserNode::new_jump_link_r(
+                                    With::new(inst, next_node.clone()),
+                                    With::new(Register::X1, next_node.clone()),
+                                    reg1,
+                                    With::new(Imm::new(0), next_node),
+                                    lex.raw_token,
+                                ));
+                            }
                             let next = lex.get_any()?;
                             return if let Ok(rs1) = next.as_reg() {
                                 let imm = lex.get_imm()?;
@@ -522,12 +540,10 @@ impl TryFrom<&mut Peekable<Lexer>> for ParserNode {
                                     lex.raw_token,
                                 ))
                             } else {
-                                Ok(ParserNode::new_jump_link_r(
-                                    With::new(inst, next_node.clone()),
-                                    With::new(Register::X1, next_node.clone()),
-                                    reg1,
-                                    With::new(Imm::new(0), next_node),
-                                    lex.raw_token,
+                                // Neither a register, an offset nor `(`
+                                Err(LexError::Expected(
+                                    vec![ExpectedType::Register, ExpectedType::Imm, ExpectedType::LParen],
+                                    Box::new(next),
                                 ))
                             };
                         }
